@@ -1,6 +1,21 @@
 # per-property claim texts used by mk_manifest.py
 NA = {}
 CLAIMS = {
+ 'C06': {
+  'technique': 'Coq proofs over R on the generated RDP formulas (log-add, binomial moment series, RDP->DP conversion for finite distributions); kernel-checked interval certificates of the float values',
+  'text': ('PARTIAL. Proved for the code generated from analysis/rdp.py: _log_add = ln(e^a+e^b); the integer-order log-moment is ln of the binomial moment series A_alpha; A_alpha >= 1; '
+           'the q=0 / sigma=0 / q=1 cases; the RDP->(eps,delta) conversion with exactly the code\'s epsilon expression is sound for every pair of finite distributions, every order > 1 '
+           'and delta > 0 (Balle et al. Thm 21); min over orders. Float faithfulness is validated per point by the Interval tactic: the Python value of _compute_rdp lies within 1e-9 of '
+           'the real formula (kernel-checked enclosure), fractional orders are sandwiched between integer neighbours, get_epsilon is recomputed from certified values. Not proved: '
+           'that A_alpha is the Renyi moment of the sampled Gaussian mechanism (cited), the fractional-order erfc series, the continuous version of the conversion.'),
+ },
+ 'C12': {
+  'technique': 'Coq proofs over R of permutation / split-merge invariance and monotonicity of the generated RDP and GDP formulas; metamorphic runs on the real accountants',
+  'text': ('PARTIAL. Proved: RDP composition over the history is invariant under permutations and run splitting/merging and additive under concatenation; non-decreasing in steps '
+           '(one-step RDP >= 0); epsilon is monotone in the RDP value and antitone in delta at every order; q = 1 is the Gaussian mechanism; the GDP central-limit parameter equals '
+           'sqrt(e^{1/sigma^2}-1) sqrt(T) q and is monotone in T, q and antitone in sigma. Validated on the real rdp / prv / gdp accountants by metamorphic pairs (permutation, split, '
+           'one-by-one vs run, +steps/+rate/+sigma/+delta, q=1 closed form, CLI script). Not proved: monotonicity of RDP in q, brentq root finding, PRV numerics (see C07).'),
+ },
  'C09': {
   'technique': 'Coq proofs of the batch-index, epoch-length and shard-partition lemmas on the sampler model; exact correspondence with the real samplers under a fed uniform stream',
   'text': ('batch_indices_spec (strictly increasing, duplicate free, in range, i included iff its own uniform < q), batches_per_epoch (exactly `steps` batches, each from a fresh '
